@@ -71,10 +71,14 @@ type captureAPI struct {
 	got *t_api.Request
 	res *t_api.Response
 	err error
+	mk  func(*t_api.Request) (*t_api.Response, error)
 }
 
 func (c *captureAPI) EnqueueSQE(sqe *apiSQE) {
 	c.got = sqe.Submission
+	if c.mk != nil {
+		c.res, c.err = c.mk(sqe.Submission)
+	}
 	if c.res == nil && c.err == nil {
 		sqe.Callback(nil, t_api.NewError(t_api.StatusSystemShuttingDown, nil))
 		return
@@ -468,6 +472,9 @@ func renderGRPC(g sgrpc.Services, f func(sgrpc.Services) (proto.Message, error))
 // stepReqFront submits a request through a front end.
 func (s *Sim) stepReqFront(st *Step) bool {
 	sp := st.Req
+	if sp.Synth != nil {
+		return s.stepReqSynth(st)
+	}
 	if s.fronts == nil {
 		fr, err := newFronts(&frontAPI{API: s.api, sim: s})
 		if err != nil {
